@@ -15,6 +15,7 @@ import (
 
 	"verif/lib/ev"
 	"verif/lib/fsx"
+	"verif/lib/tarx"
 	"verif/lib/world"
 )
 
@@ -465,5 +466,88 @@ var subWorldErrors = ev.Register("worlderrors", func(w world.World) error {
 func TestPropWorldErrors(t *testing.T) {
 	ev.Check(t, subWorldErrors, func(t *rapid.T) world.World {
 		return world.Gen(t, world.Config{MaxRemotes: 3, MaxRegistry: 2, NFinders: nFinders, ErrorDeps: true, Diags: rapid.Bool().Draw(t, "diags")})
+	})
+}
+
+// ---------------------------------------------------------------------------
+// (a') WriteArchive into a writer that fails: the same contract as Pack - a
+// writer fault at any byte offset makes WriteArchive return an error.
+
+type ArchiveCase struct {
+	World world.World `json:"world"`
+	Only  int         `json:"only"` // -1 = every offset
+}
+
+var subArchiveWriter = ev.Register("archivewriter", func(c ArchiveCase) error {
+	arena, cleanup := fsx.Scratch("c12w-")
+	defer cleanup()
+	run, err := world.Execute(c.World, nFinders, filepath.Join(arena, "bundle"), nil)
+	if err != nil {
+		return fmt.Errorf("harness: %v", err)
+	}
+	for _, call := range run.Calls {
+		if call.Panicked != nil || call.Diags.HasErrors() {
+			ev.Label("build-fails")
+			return nil
+		}
+	}
+	run.Close()
+	if run.Bundle == nil {
+		ev.Label("build-fails")
+		return nil
+	}
+	clean := tarx.NewFaultWriter(-1)
+	if err := run.Bundle.WriteArchive(clean); err != nil {
+		return fmt.Errorf("WriteArchive into a sound writer failed: %v", err)
+	}
+	total := clean.Buf.Len()
+	var offsets []int
+	switch {
+	case c.Only >= 0:
+		offsets = []int{c.Only}
+	case total <= 2048:
+		for k := 0; k < total; k++ {
+			offsets = append(offsets, k)
+		}
+	default:
+		// every Write-call boundary +-1 and midpoint, the first and the last 300 bytes
+		seen := map[int]bool{}
+		add := func(k int) {
+			if k >= 0 && k < total && !seen[k] {
+				seen[k] = true
+				offsets = append(offsets, k)
+			}
+		}
+		pos := 0
+		for _, n := range clean.Calls {
+			for _, k := range []int{pos - 1, pos, pos + 1, pos + n/2} {
+				add(k)
+			}
+			pos += n
+		}
+		for k := 0; k < 300; k++ {
+			add(k)
+			add(total - 1 - k)
+		}
+	}
+	h := ev.Hash(c.World)
+	for _, k := range offsets {
+		w := tarx.NewFaultWriter(k)
+		ev.Eval()
+		err := run.Bundle.WriteArchive(w)
+		if k > 0 {
+			ev.NonTrivialKey(fmt.Sprintf("archive:%x@%d", h, k), "writer-fault-after-progress")
+		}
+		if w.Failed && err == nil {
+			c.Only = k
+			return fmt.Errorf("WriteArchive returned nil although the writer failed at byte %d of %d (the archive is incomplete)", k, total)
+		}
+	}
+	return nil
+})
+
+func TestPropArchiveWriter(t *testing.T) {
+	ev.Check(t, subArchiveWriter, func(t *rapid.T) ArchiveCase {
+		return ArchiveCase{World: world.Gen(t, world.Config{MaxRemotes: 2, MaxRegistry: 1, NFinders: nFinders, RichTrees: rapid.Bool().Draw(t, "rich")}), Only: -1}
 	})
 }
